@@ -137,13 +137,13 @@ def run_json(path, outdir, fault_step, err, every):
     return rec.events, so, se, sx
 
 
-def run_file(file, fault_step, err, every):
+def run_file(file, fault_step, err, every, hex_=False):
     rec = Recorder(fault_step, err)
     real_remove = os.remove
     fs = FaultStdout(rec)
     from pel.peltool import peltool
     old_argv, old_out, old_err = sys.argv, sys.stdout, sys.stderr
-    sys.argv = ['peltool.py', '-f', file, '--clean'] + (['-E'] if every else [])
+    sys.argv = ['peltool.py', '-f', file, '--clean'] + (['-E'] if every else []) + (['-x'] if hex_ else [])
     sys.stdout, sys.stderr = fs, io.StringIO()
     os.remove = lambda p: rec.do('remove', lambda: real_remove(p))
     code = None
@@ -198,6 +198,9 @@ def run(tier, seed):
                 for err in ([errno.ENOSPC, errno.EIO, errno.EPIPE] if fs is not None else [errno.ENOSPC]):
                     reqs.append('clean 1 %d 0 1 %d' % ({'doc': 0, 'filtered': 1, 'failed': 2}[dres], 999999 if fs is None else fs))
                     meta.append(('file', dres, data, every, 0, fs, err))
+                    # the same procedure with --hex: the document is the delimited hex dump, written line by line
+                    reqs.append(reqs[-1])
+                    meta.append(('filehex', dres, data, every, 0, fs, err))
         replies = lean_batch(reqs)
         for (proc, dres, data, every, n, fs, err), r in zip(meta, replies):
             work = tempfile.mkdtemp(dir=tmp)
@@ -211,7 +214,7 @@ def run(tier, seed):
             if proc == 'json':
                 events, so, se, sx = run_json(indir, outdir, -1 if fs is None else fs, err, every)
             else:
-                events, so, se, sx = run_file(infile, -1 if fs is None else fs, err, every)
+                events, so, se, sx = run_file(infile, -1 if fs is None else fs, err, every, hex_=(proc == 'filehex'))
             events = trunc(events)
             model = [r.word() for _ in range(r.num())]
             m_removed = bool(r.num())
@@ -274,6 +277,28 @@ def run(tier, seed):
             if not os.path.exists(infile):
                 ck.fail('input deleted although nothing could be written to stdout (pipe without reader, EPIPE)',
                         {'op': 'clean-os', 'case': 'closed-pipe', 'optimise': opt, 'exit': p.returncode, 'stderr': se.decode(errors='replace')[-300:]}, 'os_pipe')
+        # --json --clean over several files: the output of the SECOND file cannot be opened (its name exists as a directory);
+        # the first file's success must not carry over
+        for order in ('good-first', 'bad-first'):
+            two = os.path.join(tmp, 'two_' + order)
+            out2 = os.path.join(tmp, 'two_out_' + order)
+            os.makedirs(two)
+            os.makedirs(out2)
+            other = pelbuild.pel([pelbuild.UH(), pelbuild.SRC(), pelbuild.UD(b'second')], eid=0x50000abe)
+            names = ('a_first', 'b_second') if order == 'good-first' else ('b_second', 'a_first')
+            open(os.path.join(two, names[0]), 'wb').write(good)
+            open(os.path.join(two, names[1]), 'wb').write(other)
+            blocked = 'b_second'
+            beid = '50000abc' if names[0] == blocked else '50000abe'
+            for cand in ('%s.0x%s.json' % (blocked, beid.upper()), '%s.%s.json' % (blocked, beid.upper()), '%s.0x%s.json' % (blocked, beid), '%s.%s.json' % (blocked, beid)):
+                os.makedirs(os.path.join(out2, cand), exist_ok=True)
+            so, se, sx = clirun.run_sub(['-p', two, '-j', '-c', '-o', out2, '-E'])
+            ck.case(key=('os', 'two', order), sample={'real_os': '-j -c over two files, the output name of one is a directory', 'left': sorted(os.listdir(two))})
+            ck.count('real-OS two files')
+            wrote = [f for f in os.listdir(out2) if f.startswith(blocked) and os.path.isfile(os.path.join(out2, f))]
+            if not os.path.exists(os.path.join(two, blocked)) and not wrote:
+                ck.fail('--json --clean deleted an input whose output file could not be opened', {'op': 'clean-os', 'case': 'two-files ' + order, 'stderr': se[-300:],
+                        'inputs_left': sorted(os.listdir(two)), 'outputs': sorted(os.listdir(out2))}, 'os_two')
         ro = os.path.join(tmp, 'in_ro')
         os.makedirs(ro)
         open(os.path.join(ro, 'p1'), 'wb').write(good)
